@@ -33,12 +33,15 @@ def lossless_boundary():
 
     for L in (254, 255, 256, 257, 509, 510, 511, 512, 513, 765, 766, 767, 768, 1020, 1024):
         vals = [1] * (2 * L)  # 4 bits each: exactly L bytes
-        grid = [[P.SliceCoeffs(P.ComponentCoeffs(vals, [0] * len(vals)), P.ComponentCoeffs([], []), P.ComponentCoeffs([], []))]]
-        scaler, td = P.make_transform_data_hq_lossless(grid)
-        ln = td["hq_slices"][0]["slice_y_length"]
-        if not (0 <= ln <= 255) or ln * scaler < L:
-            return {"lossless_slice_bytes": L, "why": "lossless HQ slice of %d bytes: slice_size_scaler %d, slice_y_length %d (does not fit 8 bits / "
-                    "does not cover the data): serialisation raises OutOfRangeError" % (L, scaler, ln)}
+        for which in range(3):   # the long component is Y, C1 or C2 (the others empty)
+            comps = [P.ComponentCoeffs(vals, [0] * len(vals)) if k == which else P.ComponentCoeffs([], []) for k in range(3)]
+            grid = [[P.SliceCoeffs(*comps)]]
+            scaler, td = P.make_transform_data_hq_lossless(grid)
+            ln = td["hq_slices"][0]["slice_%s_length" % ("y", "c1", "c2")[which]]
+            if not (0 <= ln <= 255) or ln * scaler < L:
+                return {"lossless_slice_bytes": L, "component": ("Y", "C1", "C2")[which],
+                        "why": "lossless HQ slice whose %s component has %d bytes: slice_size_scaler %d, length field %d (does not fit 8 bits / "
+                        "does not cover the data): serialisation raises OutOfRangeError" % (("Y", "C1", "C2")[which], L, scaler, ln)}
     return None
 
 
